@@ -114,7 +114,8 @@ PROPS = {
             enum("embedded", ["props/C15_enum.cpp", "shims/bf_table.c"], qs=2, ts=8, lib="embedded", noswap=True, cxxflags=["-DVP_LIGHT"]),
             enum("gcc", ["props/C15_enum.cpp", "shims/bf_table.c"], qs=2, ts=8, lib="gcc", cxxflags=["-DVP_LIGHT"]),
             enum("fast", ["props/C15_enum.cpp", "shims/bf_table.c"], qs=0, ts=16, lib="fast", cxxflags=["-DVP_FAST", "-O2"], cflags=["-O2"]),
-            enum("alias", ["props/C15_alias_enum.cpp", "shims/bf_alias.c", "shims/bf_const.c"], qs=2, ts=4, lib="fast", cxxflags=["-O2"], cflags=["-O2", "-fstrict-aliasing"]),   # typed stores by the caller, optimised build without sanitizers
+            enum("alias", ["props/C15_alias_enum.cpp", "shims/bf_alias.c", "shims/bf_const.c"], qs=2, ts=4, lib="fast", cxxflags=["-O2"], cflags=["-O2", "-fstrict-aliasing"]),
+            enum("alias-gcc", ["props/C15_alias_enum.cpp", "shims/bf_alias.c", "shims/bf_const.c"], qs=2, ts=4, lib="gcc", cxxflags=["-O2"], cflags=["-O2", "-fstrict-aliasing"]),   # the same probes compiled by gcc (its type-based alias analysis differs from clang's)   # typed stores by the caller, optimised build without sanitizers
         ],
     ),
     "C12": dict(
@@ -325,6 +326,10 @@ def _ambient():
     main = P["targets"][0]
     P["targets"].append(dict(name="locale-tr", binary_of=main["name"], sources=main["sources"], lib="asan", env={"VP_LOCALE": "tr_TR.ISO-8859-9"},
                              quick=dict(shards=2, of=12), thorough=dict(shards=4, of=16)))
+
+
+    P["targets"].append(dict(name="stack-unlimited", binary_of=main["name"], sources=main["sources"], lib="asan", env={"VP_RLIMIT": "stack-unlimited"},
+                             quick=dict(shards=1, of=12), thorough=dict(shards=2, of=16)))
 
 
 _ambient()
